@@ -80,16 +80,18 @@ theorem writeSolicited_same {a : Acc} {dst : Nat} {r : Resp} {a' : Acc} {r' : Re
   simp only [keepWS, Prod.mk.injEq] at this
   exact ⟨by simp [this], by simp [this]⟩
 
-theorem writeErrorResponse_same {a : Acc} {dst : Nat} {seq : Option Nat} {a' : Acc}
-    (h : writeErrorResponse a dst seq = some a') : Same a a' := by
+theorem writeErrorResponse_same {a : Acc} {dst : Nat} {bc : Bool} {seq : Option Nat} {a' : Acc}
+    (h : writeErrorResponse a dst bc seq = some a') : Same a a' := by
   unfold writeErrorResponse at h
   split at h
   · cases h; exact Same.refl _
   · split at h
-    · cases h
-    · rename_i a2 r2 hw
-      cases h
-      exact writeSolicited_same hw
+    · cases h; exact Same.refl _
+    · split at h
+      · cases h
+      · rename_i a2 r2 hw
+        cases h
+        exact writeSolicited_same hw
 
 theorem handleNonRead_same {a : Acc} {func seq fid : Nat} {hs : List ObjHdr} {raw : List Nat}
     {a' : Acc} {r : Option Resp} (h : handleNonRead a func seq fid hs raw = some (a', r)) : Same a a' := by
@@ -161,9 +163,9 @@ theorem readPrep_clean (K : CleanContract Clean) (s : OState) (hs : List ObjHdr)
   | some sr => right; simp
 
 theorem idleStage1_clean (K : CleanContract Clean) {a a1 : Acc} {f : Frag} {ctrl : AppCtrl} {func : Nat}
-    {objs : Except Nat (List ObjHdr)} {raw : List Nat} {lr : Option LastReq} (hc : Clean a.1.db)
+    {objs : Except Nat (List ObjHdr)} {raw : List Nat} {lr : Option (LastReq × Bool)} (hc : Clean a.1.db)
     (h : idleStage1 a f ctrl func objs raw = some (a1, lr)) :
-    Clean a1.1.db ∨ ∃ l, lr = some l ∧ l.series ≠ none := by
+    Clean a1.1.db ∨ ∃ l e, lr = some (l, e) ∧ l.series ≠ none := by
   unfold idleStage1 at h
   split at h
   · cases h; exact Or.inl hc
@@ -172,13 +174,13 @@ theorem idleStage1_clean (K : CleanContract Clean) {a a1 : Acc} {f : Frag} {ctrl
     obtain ⟨rfl, rfl⟩ := h
     rcases readPrep_clean K a.1 hs ctrl.seq hc with h1 | h1
     · exact Or.inl h1
-    · exact Or.inr ⟨_, rfl, h1⟩
+    · exact Or.inr ⟨_, _, rfl, h1⟩
   · rename_i rr hs hcl
     simp only [Option.some.injEq, Prod.mk.injEq] at h
     obtain ⟨rfl, rfl⟩ := h
     rcases readPrep_clean K a.1 hs ctrl.seq hc with h1 | h1
     · exact Or.inl h1
-    · exact Or.inr ⟨_, rfl, h1⟩
+    · exact Or.inr ⟨_, _, rfl, h1⟩
   · dsimp only at h
     split at h
     · cases h
@@ -189,7 +191,9 @@ theorem idleStage1_clean (K : CleanContract Clean) {a a1 : Acc} {f : Frag} {ctrl
   · cases h
     left
     dsimp only
-    split <;> exact hc
+    split
+    · split <;> exact hc
+    · exact hc
   · dsimp only at h
     split at h
     · cases h
@@ -200,28 +204,34 @@ theorem idleStage1_clean (K : CleanContract Clean) {a a1 : Acc} {f : Frag} {ctrl
   · cases h; exact Or.inl hc
   · cases h; exact Or.inl hc
 
-theorem idleStage2_none {f : Frag} {a1 a' : Acc} {lr : Option LastReq}
+theorem idleStage2_none {f : Frag} {a1 a' : Acc} {lr : Option (LastReq × Bool)}
     (h : idleStage2 f (some (a1, lr)) = some (a', none)) :
-    a'.1.db = a1.1.db ∧ ∀ l, lr = some l → l.series = none := by
+    a'.1.db = a1.1.db ∧ ∀ l e, lr = some (l, e) → l.series = none := by
   unfold idleStage2 at h
   cases lr with
-  | none => cases h; exact ⟨rfl, fun l hl => by cases hl⟩
-  | some lr =>
+  | none => cases h; exact ⟨rfl, fun l e hl => by cases hl⟩
+  | some p =>
+    obtain ⟨lr, echo⟩ := p
     dsimp only at h
     split at h
     · simp only [Option.some.injEq, Prod.mk.injEq] at h
       obtain ⟨rfl, hs⟩ := h
-      exact ⟨rfl, fun l hl => by cases hl; exact hs⟩
+      exact ⟨rfl, fun l e hl => by cases hl; exact hs⟩
     · split at h
-      · cases h
-      · rename_i a2 r2 hw
+      · -- echo: the stored response goes out verbatim, the database is not touched
         simp only [Option.some.injEq, Prod.mk.injEq] at h
         obtain ⟨rfl, hs⟩ := h
-        refine ⟨(writeSolicited_same hw).2, fun l hl => ?_⟩
-        cases hl
-        split at hs
-        · cases hs
-        · exact hs
+        exact ⟨rfl, fun l e hl => by cases hl; exact hs⟩
+      · split at h
+        · cases h
+        · rename_i a2 r2 hw
+          simp only [Option.some.injEq, Prod.mk.injEq] at h
+          obtain ⟨rfl, hs⟩ := h
+          refine ⟨(writeSolicited_same hw).2, fun l e hl => ?_⟩
+          cases hl
+          split at hs
+          · cases hs
+          · exact hs
 
 /-- a request handled from idle starts from a clean database whenever the pass does, and leaves it clean
     unless it opens a series -/
@@ -236,9 +246,9 @@ theorem idle_request_clean {Clean : Db → Prop} (K : CleanContract Clean) {a a'
     rw [h1] at hh
     obtain ⟨hdb, hser⟩ := idleStage2_none hh
     rw [hdb]
-    rcases idleStage1_clean K hc h1 with h2 | ⟨l, hl, hne⟩
+    rcases idleStage1_clean K hc h1 with h2 | ⟨l, e, hl, hne⟩
     · exact h2
-    · exact absurd (hser l hl) hne
+    · exact absurd (hser l e hl) hne
 
 /-! ## the unsolicited check -/
 
@@ -340,7 +350,7 @@ theorem runPass_post (K : CleanContract Clean) (fuel : Nat) (a : Acc) (hc : Clea
     have hs : Clean s.db := by rw [House.db hh]; exact hc
     cases p with
     | nothing => exact afterRequest_post K _ ih _ hs
-    | error src seq =>
+    | error src bc seq =>
       dsimp only
       split
       · exact die_post _
@@ -391,7 +401,7 @@ theorem solWaitOnFragment_post (K : CleanContract Clean) (a : Acc) (sr : Series)
     fun a1 => abortSeries_post K _ _
   cases p with
   | nothing => exact Post.ofNot hsm
-  | error src seq => exact newReq _
+  | error src bc seq => exact newReq _
   | request f ctrl func objs raw =>
     dsimp only
     split
@@ -456,7 +466,7 @@ theorem unsolWaitOnFragment_post (K : CleanContract Clean) (a : Acc) (resp : Res
   have stays : ∀ a' : Acc, Same a a' → Post Clean a' := fun a' hs => unsolWait_stays hm hn hs
   cases p with
   | nothing => exact stays _ h1
-  | error src seq =>
+  | error src bc seq =>
     dsimp only
     split
     · exact die_post _
@@ -483,7 +493,7 @@ theorem unsolWaitOnFragment_post (K : CleanContract Clean) (a : Acc) (resp : Res
       split
       · exact die_post _
       · rename_i a' hp
-        exact stays _ (Same.trans h2d (processBroadcast_same hp))
+        exact stays _ (Same.trans (b := a') (Same.trans h2d (processBroadcast_same hp)) ⟨rfl, rfl⟩)
     · -- malformed
       split
       · exact die_post _
